@@ -22,6 +22,15 @@ NOT_APPLICABLE = {
 }
 
 REGISTRY = {
+    "C05": {
+        "modules": ["c05"],
+        "level_text": "Per-call contracts on the real step-limit machinery (extracted to C each run): SimTrackView::step_limit only shortens the step and replaces the action iff strictly shorter; add_time never decreases time; TimeUpdater, TrackUpdater (step counter +1 iff not errored, MFP reduced by step*xs exactly when the discrete action is not selected), PropagationApplier (0 < len' <= len, a shortened step carries a boundary/propagation/tracking-cut action, zero-length steps untouched, every in-body CELER_ASSERT holds) -- for all states, discharged by CBMC. Cross-step continuity and 'volume contains position' are whole-history statements and are not decided.",
+        "level_note": "Trusted: CBMC/dfcc/SAT+cvc5; extraction rules; view model prelude/views.h; propagator by its C08 contract; speed() >= 0 assumed. TrackUpdater's CELER_ASSERT(mfp > 0) is NOT promoted (1-ulp floating-point corner, stated in evidence). Not decided: PreStepExecutor/calc_physics_step_limit (planned), cross-step joins, volume-position consistency, status monotonicity over a whole step.",
+        "design_ref": "DESIGN.md 4 C05",
+        "trusted_base": [],
+        "assumptions": [],
+        "not_decided": ["post-step values of step k equal pre-step values of step k+1 (frame over the whole action sequence)", "volume reported contains the position (needs C03)", "step length >= straight-line displacement", "PreStepExecutor / calc_physics_step_limit (planned)", "status only moves forward within a step (StatusCheckExecutor table)"],
+    },
     "C01": {
         "modules": ["c01"],
         "level_text": "Per-call energy ledgers on the deposit paths named in the property, as contracts on the real code (extracted to C each run): ElossApplier moves exactly the helper's amount d from the particle to the deposition (same machine value, once) with 0 <= E' <= E; TrackingCutExecutor deposits E (+2mc^2 for antiparticles) and zeroes the particle; MeanELoss::calc_eloss / calc_mean_energy_loss never exceed E and give exactly E for a range-limited step; the leaf view operations they call are enforced against the real member functions. The event-level sum is a paper lemma (telescoping) over these contracts and is not decided here.",
